@@ -234,7 +234,7 @@ UNSUPPORTED = [
 
 
 def check(run):
-    run.level = "translation_validation"
+    run.level = "proof"
     broken = []
     try:
         vlib.proof_stage(run, "C18", ["C01/Properties.v", "C18/Properties.v"], pins="C18")
